@@ -111,20 +111,20 @@ Section ormap_laws.
     rewrite <- Hk in Hin. destruct (Hg k Hin) as [G1 G2].
     rewrite !vals_merge_lookup'.
     pose proof (okO_lookup a k Ha) as Oa. pose proof (okO_lookup b k Hb) as Ob. pose proof (okO_lookup c k Hc) as Oc.
+    assert (k ∉ s_elements (s_merge (m_keys a) (m_keys b)) → m_vals a !! k = None ∧ m_vals b !! k = None) as NA.
+    { intros N1. split.
+      - destruct (m_vals a !! k) eqn:E; [exfalso; apply N1, G1; left; rewrite E; eauto|reflexivity].
+      - destruct (m_vals b !! k) eqn:E; [exfalso; apply N1, G1; right; rewrite E; eauto|reflexivity]. }
+    assert (k ∉ s_elements (s_merge (m_keys b) (m_keys c)) → m_vals b !! k = None ∧ m_vals c !! k = None) as NB.
+    { intros N2. split.
+      - destruct (m_vals b !! k) eqn:E; [exfalso; apply N2, G2; left; rewrite E; eauto|reflexivity].
+      - destruct (m_vals c !! k) eqn:E; [exfalso; apply N2, G2; right; rewrite E; eauto|reflexivity]. }
     destruct (decide (k ∈ s_elements (s_merge (m_keys a) (m_keys b)))) as [|N1];
     destruct (decide (k ∈ s_elements (s_merge (m_keys b) (m_keys c)))) as [|N2].
     - apply U_assoc; assumption.
-    - assert (m_vals b !! k = None ∧ m_vals c !! k = None) as [Eb Ec].
-      { destruct (m_vals b !! k) eqn:E1, (m_vals c !! k) eqn:E2; try (exfalso; apply N2, G2; eauto). auto. }
-      rewrite Eb, Ec. simpl. destruct (vcore <$> m_vals a !! k); reflexivity.
-    - assert (m_vals a !! k = None ∧ m_vals b !! k = None) as [Ea Eb].
-      { destruct (m_vals a !! k) eqn:E1, (m_vals b !! k) eqn:E2; try (exfalso; apply N1, G1; eauto). auto. }
-      rewrite Ea, Eb. simpl. destruct (vcore <$> m_vals c !! k); reflexivity.
-    - assert (m_vals a !! k = None ∧ m_vals b !! k = None) as [Ea Eb].
-      { destruct (m_vals a !! k) eqn:E1, (m_vals b !! k) eqn:E2; try (exfalso; apply N1, G1; eauto). auto. }
-      assert (m_vals c !! k = None) as Ec.
-      { destruct (m_vals c !! k) eqn:E2; [exfalso; apply N2, G2; eauto|reflexivity]. }
-      rewrite Ea, Eb, Ec. reflexivity.
+    - destruct (NB N2) as [Eb Ec]. rewrite Eb, Ec. simpl. destruct (vcore <$> m_vals a !! k); reflexivity.
+    - destruct (NA N1) as [Ea Eb]. rewrite Ea, Eb. simpl. destruct (vcore <$> m_vals c !! k); reflexivity.
+    - destruct (NA N1) as [Ea Eb]. destruct (NB N2) as [_ Ec]. rewrite Ea, Eb, Ec. reflexivity.
   Qed.
 
   (* the key set itself is an ORSet: its laws are unconditional for well-formed maps *)
